@@ -287,7 +287,7 @@ def num_helper(c):
             e = "a.as_%s()" % t2
         return "%s(a: %s) { log(%s); }\n" % (hd, T, e)
     if op == "narrow":
-        return "%s(a: %s) { log(<%s as TryFrom<%s>>::try_from(a)); }\n" % (hd, T, NTY[c["t2"]], T)
+        return "%s(a: %s) { log(%s::try_from(a)); }\n" % (hd, T, NTY[c["t2"]])
     if op == "try_as_u64":
         return "%s(a: %s) { log(a.try_as_u64()); }\n" % (hd, T)
     raise ValueError("unknown numeric op %r" % op)
@@ -304,12 +304,15 @@ def render_num_case(name, c):
     return "#[test]\nfn %s() {\n    %s(%s);\n}\n" % (name, num_helper_name(c), ", ".join(args))
 
 
-NUM_HEADER = ("script;\nuse std::u128::{U128, U128Error};\nuse std::math::*;\nuse std::flags::*;\n"
-              "use std::convert::TryFrom;\nfn main() {}\n")
+NUM_HEADER = ("script;\nuse std::u128::*;\nuse std::math::*;\nuse std::flags::*;\nuse std::convert::TryFrom;\n"
+              "use std::primitive_conversions::{u8::*, u16::*, u32::*, u64::*, u256::*};\nfn main() {}\n")
 
 
 # ----------------------------------------------------------------------------- packages
-def coll_packages(recs, prefix, per_pkg=1500):
+PER_PKG = {"u8": 1500, "u64": 1500, "u256": 400, "pair": 400}     # literals of wide element types fill the data section
+
+
+def coll_packages(recs, prefix, per_pkg=None):
     """recs: history records (each gets rec["id"] = its test key). Returns list of vh-exec package records and
     a map (pkgid, testname) -> rec."""
     groups = {}
@@ -317,10 +320,11 @@ def coll_packages(recs, prefix, per_pkg=1500):
         groups.setdefault((r["kind"], r["ety"]), []).append(r)
     pkgs, where = [], {}
     for (kind, ety), rs in sorted(groups.items()):
-        for b in range(0, len(rs), per_pkg):
-            pid = "%s%s%s%03d" % (prefix, kind[0], {"u8": "b", "u64": "w", "u256": "q", "pair": "p"}[ety], b // per_pkg)
+        pp = per_pkg or PER_PKG[ety]
+        for b in range(0, len(rs), pp):
+            pid = "%s%s%s%03d" % (prefix, kind[0], {"u8": "b", "u64": "w", "u256": "q", "pair": "p"}[ety], b // pp)
             src = coll_header(kind, ety)
-            for n, r in enumerate(rs[b:b + per_pkg]):
+            for n, r in enumerate(rs[b:b + pp]):
                 name = "h%04d" % n
                 src += render_history(name, r)
                 where[(pid, name)] = r
@@ -331,9 +335,12 @@ def coll_packages(recs, prefix, per_pkg=1500):
 def num_packages(cases, prefix, per_pkg=2000):
     pkgs, where = [], {}
     cases = sorted(cases, key=lambda c: (c["ty"], c["op"], c["mode"], c["t2"], c["a"], c["b"], c["n"]))
-    for b in range(0, len(cases), per_pkg):
-        pid = "%sn%03d" % (prefix, b // per_pkg)
-        chunk = cases[b:b + per_pkg]
+    chunks = []
+    for ty in sorted({c["ty"] for c in cases}):               # one operand type per package: a compile error stays local
+        of_ty = [c for c in cases if c["ty"] == ty]
+        chunks += [of_ty[b:b + per_pkg] for b in range(0, len(of_ty), per_pkg)]
+    for k, chunk in enumerate(chunks):
+        pid = "%sn%03d" % (prefix, k)
         helpers = {}
         for c in chunk:
             helpers.setdefault(num_helper_name(c), num_helper(c))
